@@ -104,6 +104,14 @@ def standard_plan(chk, focus, nt_key, kinds_quick=("sort",), kinds_thorough=("so
         plans.append(("d4-idle1-h1", dict(depth=4, MaxIdle=1, H=1, Confs={900}, MaxDets=1)))
         plans.append(("sim250", dict(depth=250, MaxIdle=2, H=3, Slots={1, 2, 3}, sim=6, simulate={"num": 12, "depth": 251})))
         plans.append(("sim250-maha", dict(depth=250, MaxIdle=1, Metric="maha", Thr=1000, sim=6, simulate={"num": 8, "depth": 251})))
+    # configuration sweep: long random histories under option values the other plans do not use (history length, idle
+    # limit, IoU threshold, confidence floor, confidences below the floor / between floor and threshold, three slots)
+    for j in range(3 if quick else 12):
+        maha = j % 3 == 2
+        plans.append((f"sweep-{j}", dict(depth=40, sim=6, simulate={"num": 1 if quick else 10, "depth": 41},
+                                          H=(1, 3, 4, 2)[j % 4], MaxIdle=(2, 1, 3)[j % 3], Slots={1, 2, 3},
+                                          Metric="maha" if maha else "iou", Thr=1000 if maha else (100, 450, 300, 200)[j % 4],
+                                          MinConf=(50, 300)[(j // 3) % 2], Confs={900, 500, 200})))
     for pi, (name, kw) in enumerate(plans):
         r, c = generate(chk, name, **kw)
         for i, kind in enumerate(kinds):
